@@ -186,6 +186,7 @@ class InteractiveStepExecutor(ExecutorBase):
         spawner: BaseSpawner = MpiExecSpawner,
     ):
         super().__init__(max_cores=max_cores)
+        self._default_cores = executor_kwargs.get("cores", 1)
         executor_kwargs["future_queue"] = self._future_queue
         executor_kwargs["spawner"] = spawner
         executor_kwargs["max_cores"] = max_cores
